@@ -1,6 +1,7 @@
 package rules
 
 import (
+	"go/token"
 	"fmt"
 	"strings"
 
@@ -311,11 +312,12 @@ func certainlyNonNilError(v ssa.Value) bool {
 		}
 	}
 	switch x := v.(type) {
-	case *ssa.MakeInterface:
-		switch x.X.(type) {
-		case *ssa.Alloc, *ssa.UnOp, *ssa.Const:
+	case *ssa.UnOp:
+		// a package-level sentinel error (var ErrX = errors.New(…)); trusted to be non-nil
+		if g, ok := x.X.(*ssa.Global); ok && x.Op == token.MUL && strings.HasPrefix(g.Name(), "Err") {
 			return true
 		}
+	case *ssa.MakeInterface:
 		return true
 	case *ssa.Call:
 		if cl := x.Call.StaticCallee(); cl != nil && cl.Pkg != nil && strings.HasSuffix(cl.Pkg.Pkg.Path(), "errors") {
